@@ -837,10 +837,10 @@ class DataSet:
                 self._freq_keep &= (self.spectral_windows[self.spw].channel_freqs <= end_freq)
             # Selections that affect corrprod axis
             elif k == 'corrprods':
-                if v == 'auto':
+                if isinstance(v, str) and v == 'auto':
                     self._corrprod_keep &= [(inpA[:-1] == inpB[:-1])
                                             for inpA, inpB in self.subarrays[self.subarray].corr_products]
-                elif v == 'cross':
+                elif isinstance(v, str) and v == 'cross':
                     self._corrprod_keep &= [(inpA[:-1] != inpB[:-1])
                                             for inpA, inpB in self.subarrays[self.subarray].corr_products]
                 else:
